@@ -69,6 +69,10 @@ func runK10(c *core.Ctx) {
 				c.Undecided(fn+"/write-barrier", fd.Pos(), "cannot enumerate emitted sequences")
 				continue
 			}
+			if anyTrunc(seqs) {
+				c.Undecided(fn+"/write-barrier", fd.Pos(), "a helper could not be inlined within the path budget")
+				continue
+			}
 			nstores := 0
 			bad := map[string]token.Pos{}
 			for _, sq := range seqs {
